@@ -4,12 +4,12 @@
 package main
 
 import (
-	"github.com/WICG/webpackage/go/zz_verif/rcbor"
-	"crypto/sha256"
 	"bytes"
 	"crypto/ecdsa"
+	"crypto/sha256"
 	"crypto/x509"
 	"fmt"
+	"github.com/WICG/webpackage/go/zz_verif/rcbor"
 	"net/http"
 	"net/url"
 	"sort"
@@ -376,6 +376,40 @@ func main() { mon.Main("C06", run) }
 func run(r *mon.Run) {
 	r.Rule("bundles b1/b2 x 1..6 exchanges on up to 3 hosts (+ an uncovered host) x sequences of 1..3 signers (P-256/P-384, chains of 1-2 certificates, SANs covering disjoint host subsets) x MI record sizes {1,16,17,4096,16384} x lifetimes {1 s, 1 h, 1 d, 7 d}; checked in memory and after WriteTo/Read; authority index resolved by the harness; time grid around date / expires incl. sub-second instants and lifetime 604800 / 604801; mutations: every bit of the signatures section (small bundles), status / every header (incl. Digest re-encoded together with the body) / body bytes at every record boundary of covered exchanges, signed subsets swapped between signers, authority index +-1 / out of range, sig truncated / extended; crypto/ecdsa over the independently rebuilt message referees every vouched subset NewVerifier accepts; distinct = (version, class, mutation kind, outcome)")
 	r.Assume("ECDSA/SHA-256 is not forged by a random edit; signers cover disjoint host sets (a second AddPayloadIntegrity on the same exchange is refused by design); certificates are not validated by this library")
+	// which hosts a certificate covers (the harness follows CanSignForURL when it signs, as sign-bundle does; this is
+	// the independent statement of what that answer has to be for exact and wildcard names)
+	if r.Shard == 0 {
+		cg := r.Rand("coverage", 0)
+		ck := gen.ECKey(cg, gen.Curves[0])
+		leaf := gen.Cert(ck, gen.CertOpts{CN: "a.example", DNS: []string{"a.example", "*.w.example", "b.example"}, Serial: 4711})
+		ch, cerr := certurl.NewCertChain([]*x509.Certificate{leaf}, []byte("ocsp"), nil)
+		vu, _ := url.Parse("https://a.example/validity")
+		if cerr != nil {
+			r.HarnessFail("coverage: %v", cerr)
+		} else if sg, serr := signature.NewSigner(version.VersionB2, ch, ck, vu, time.Unix(1600000000, 0), time.Hour); serr != nil {
+			r.HarnessFail("coverage: NewSigner: %v", serr)
+		} else {
+			for host, want := range map[string]bool{
+				"a.example": true, "b.example": true, "A.EXAMPLE": true, "x.w.example": true, "X.W.Example": true,
+				"c.example": false, "xa.example": false, "a.example.evil.example": false, "sub.a.example": false, "w.example": false,
+				"y.x.w.example": false, "xw.example": false, "example": false, "a.exampl": false, "aa.example": false, "a-example": false,
+				"a.example:8443": true, "evil.example": false, "w.example.a.example": false, ".w.example": false,
+			} {
+				u, perr := url.Parse("https://" + host + "/r")
+				if perr != nil {
+					continue
+				}
+				got := sg.CanSignForURL(u)
+				if got != want {
+					r.Eval("coverage:WRONG")
+					r.Violation("bs:coverage:"+host, fmt.Sprintf("a certificate for a.example, b.example and *.w.example: CanSignForURL(https://%s/r) = %v, expected %v", host, got, want), nil)
+				} else {
+					r.Eval("coverage:agree")
+				}
+			}
+			r.Distinct("coverage-predicate")
+		}
+	}
 	ids := map[string]*gen.Identity{}
 	var prevSc *scenario
 	var prevMid time.Time
